@@ -79,6 +79,7 @@ func C13(c *Ctx) error {
 		spec{gen.GenFeaturePairs(n + 5), "feature_pairs"},
 		spec{basePathVariable(n + 6), "base_path_variable"},
 		spec{foreignResponse(n + 7), "foreign_response"},
+		spec{streamingFirst(n + 8), "streaming_rpcs"},
 		spec{postQueryOnly(n + 2), "post_query_only"})
 	// whatever the plugins accept must build: the rule-breaking fragments of C12 (refused today) at
 	// every placement; a validator that stops refusing one of them must not let uncompilable code out
@@ -353,6 +354,42 @@ func basePathVariable(idx int) *ir.Request {
 		{Name: "Get", Input: P + "GetReq", Output: P + "Reply", Config: &ir.HTTPConfig{Path: "/members/{member_id}", Method: "GET"}},
 		{Name: "Add", Input: P + "AddReq", Output: P + "Reply", Config: &ir.HTTPConfig{Path: "/members", Method: "POST"}},
 	}}}
+	return &ir.Request{Files: []*ir.File{f}, Generate: []string{f.Name}}
+}
+
+// streamingFirst: services whose FIRST rpc is a streaming one, whose only rpcs are streaming ones, and one where a
+// streaming rpc stands between unary ones (with service- and method-level headers, which is what the registration
+// code declares per route): whatever a generator does with a streaming rpc, what it emits still compiles.
+func streamingFirst(idx int) *ir.Request {
+	pkg := "st.v1"
+	P := "." + pkg + "."
+	f := &ir.File{Name: fmt.Sprintf("st%d/api.proto", idx), Package: pkg, GoPackage: "example.com/gen/st/v1;stv1"}
+	f.Messages = []*ir.Message{
+		{Name: "Ask", Fields: []*ir.Field{{Name: "topic", Number: 1, Kind: "string"}}},
+		{Name: "Tick", Fields: []*ir.Field{{Name: "seq", Number: 1, Kind: "int64"}}},
+	}
+	cfg := func(p string) *ir.HTTPConfig { return &ir.HTTPConfig{Path: p, Method: "POST"} }
+	hdr := []ir.Header{{Name: "X-Trace", Type: "string", Required: true}}
+	f.Services = []*ir.Service{
+		{Name: "FeedFirst", BasePath: "/feed", Headers: hdr, Methods: []*ir.Method{
+			{Name: "Watch", Input: P + "Ask", Output: P + "Tick", ServerStreaming: true, Config: cfg("/watch"), Headers: []ir.Header{{Name: "X-Cursor", Type: "string"}}},
+			{Name: "Peek", Input: P + "Ask", Output: P + "Tick", Config: cfg("/peek")},
+			{Name: "Poke", Input: P + "Ask", Output: P + "Tick", Config: cfg("/poke"), Headers: []ir.Header{{Name: "X-Why", Type: "string", Required: true}}},
+		}},
+		{Name: "UploadFirst", BasePath: "/up", Methods: []*ir.Method{
+			{Name: "Push", Input: P + "Tick", Output: P + "Ask", ClientStreaming: true, Config: cfg("/push")},
+			{Name: "Done", Input: P + "Ask", Output: P + "Tick", Config: cfg("/done")},
+		}},
+		{Name: "OnlyStreams", BasePath: "/only", Headers: hdr, Methods: []*ir.Method{
+			{Name: "Both", Input: P + "Tick", Output: P + "Tick", ClientStreaming: true, ServerStreaming: true, Config: cfg("/both")},
+			{Name: "Down", Input: P + "Ask", Output: P + "Tick", ServerStreaming: true},
+		}},
+		{Name: "Between", Methods: []*ir.Method{
+			{Name: "First", Input: P + "Ask", Output: P + "Tick", Config: cfg("/first")},
+			{Name: "Middle", Input: P + "Ask", Output: P + "Tick", ServerStreaming: true, Config: cfg("/middle")},
+			{Name: "Last", Input: P + "Ask", Output: P + "Tick", Config: cfg("/last")},
+		}},
+	}
 	return &ir.Request{Files: []*ir.File{f}, Generate: []string{f.Name}}
 }
 
